@@ -447,4 +447,4 @@ def replay(art):
             eval_stack(ns, c['api'], tuple(c['kinds']), space.from_json(c['f']), c['placement'], st)
     finally:
         batch.close()
-    return [v['detail'] for v in st.viol] or None
+    return runner.fresh_details('C13', st) or None
